@@ -49,6 +49,7 @@ pub struct SeamLog {
     pub total_faults: u64,
     pub total_seeks: u64,
     pub total_eofs: u64,
+    pub false_eofs: u64,
     /// a read filled the request completely and the last byte delivered was '\n' / '\r'
     pub full_nl: u64,
     pub full_cr: u64,
@@ -94,6 +95,7 @@ pub struct SimSource {
     faults: Vec<Fault>,
     consecutive_intr: u32,
     intr_burst: Option<(usize, usize)>,
+    pause: Option<usize>,
     seam: Seam,
 }
 
@@ -119,6 +121,7 @@ impl SimSource {
             faults: cfg.faults.clone(),
             consecutive_intr: 0,
             intr_burst: cfg.intr_burst,
+            pause: cfg.pause,
             seam,
         }
     }
@@ -192,6 +195,13 @@ impl Read for SimSource {
         }
         self.consecutive_intr = 0;
         let remaining = self.data.len().saturating_sub(self.pos);
+        if self.pause == Some(call) && remaining > 0 && !buf.is_empty() {
+            log.op.eofs += 1;
+            log.total_eofs += 1;
+            log.false_eofs += 1;
+            log.ev(1, call as u64, 1);
+            return Ok(0);
+        }
         let mut n = want.min(buf.len()).min(remaining);
         if n > 0 {
             // stop at the next cut strictly after pos
@@ -272,6 +282,11 @@ pub struct SimSink {
     pub short_writes: usize,
     pub faults: usize,
     pub flushes: usize,
+    /// a sink with a real gathering `write_vectored` (socket / pipe like): one call takes bytes
+    /// from several slices and may stop in the middle of any of them
+    pub gather: bool,
+    pub vectored_calls: usize,
+    pub vectored_mid_slice: usize,
 }
 
 impl SimSink {
@@ -287,11 +302,75 @@ impl SimSink {
             short_writes: 0,
             faults: 0,
             flushes: 0,
+            gather: false,
+            vectored_calls: 0,
+            vectored_mid_slice: 0,
         }
+    }
+    pub fn gathering(script: &[u32], fail_at: Option<(usize, ErrorKind)>) -> SimSink {
+        let mut s = SimSink::new(script, fail_at);
+        s.gather = true;
+        s
+    }
+    /// one scripted decision: Err = this call fails, Ok(n) = accept at most n bytes
+    fn decide(&mut self) -> io::Result<usize> {
+        let call = self.calls;
+        self.calls += 1;
+        if self.calls > 10_000_000 {
+            panic!("{}: sink call budget exceeded", HANG_MARK);
+        }
+        if let Some((k, kind)) = self.fail_at {
+            if k == call {
+                self.faults += 1;
+                return Err(io::Error::from(kind));
+            }
+        }
+        let mut want = usize::MAX;
+        if !self.script.is_empty() {
+            let d = self.script[self.script_i % self.script.len()];
+            self.script_i += 1;
+            if d == 0 {
+                if self.consecutive_intr < 6 {
+                    self.consecutive_intr += 1;
+                    self.interrupts += 1;
+                    return Err(io::Error::from(ErrorKind::Interrupted));
+                }
+            } else {
+                want = d as usize;
+            }
+        }
+        self.consecutive_intr = 0;
+        Ok(want)
     }
 }
 
 impl Write for SimSink {
+    fn write_vectored(&mut self, bufs: &[io::IoSlice<'_>]) -> io::Result<usize> {
+        if !self.gather {
+            // what std's default does: the first non-empty slice only
+            let buf = bufs.iter().find(|b| !b.is_empty()).map_or(&[][..], |b| &**b);
+            return self.write(buf);
+        }
+        self.vectored_calls += 1;
+        let total: usize = bufs.iter().map(|b| b.len()).sum();
+        let mut left = self.decide()?.min(total);
+        let n = left;
+        if n < total {
+            self.short_writes += 1;
+        }
+        for b in bufs {
+            if left == 0 {
+                break;
+            }
+            let k = left.min(b.len());
+            if k < b.len() {
+                self.vectored_mid_slice += 1;
+            }
+            self.out.extend_from_slice(&b[..k]);
+            left -= k;
+        }
+        Ok(n)
+    }
     fn write(&mut self, buf: &[u8]) -> io::Result<usize> {
         let call = self.calls;
         self.calls += 1;
